@@ -419,8 +419,10 @@ func (g *generatorContext) parseLiteral(lex *structLexer) (node, error) { // nol
 }
 
 func indirectType(t reflect.Type) reflect.Type {
-	if t.Kind() == reflect.Ptr || t.Kind() == reflect.Slice {
-		return indirectType(t.Elem())
+	seen := map[reflect.Type]bool{} // A type such as "type T []T" is its own element type.
+	for (t.Kind() == reflect.Ptr || t.Kind() == reflect.Slice) && !seen[t] {
+		seen[t] = true
+		t = t.Elem()
 	}
 	return t
 }
